@@ -157,7 +157,7 @@ Proof.
   - destruct (get_m s m) as [x|] eqn:Hx.
     2:{ destruct (Pre_get_m _ _ HP); congruence. }
     destruct (Hst x Hx) as [Hfw Hfin].
-    destruct (m_bad x).
+    destruct (nth (m_idx x) (m_bad x) false).
     + apply IH.
       * apply Pre_put_exempt_m; auto.
       * apply stale_m_put; auto.
